@@ -171,21 +171,6 @@ func (w *world) resetRW() {
 	os.WriteFile(filepath.Join(w.rwdir, "wdir", "inner.txt"), []byte("writable inner\n"), 0o644)
 }
 
-func (w *world) fsConfig(mount string) wazero.FSConfig {
-	mnt := filepath.Join(w.root, mntDir)
-	switch mount {
-	case mountRO:
-		return wazero.NewFSConfig().WithReadOnlyDirMount(mnt, "/")
-	case mountRORW:
-		return wazero.NewFSConfig().WithReadOnlyDirMount(mnt, "/").WithDirMount(w.rwdir, "/rw")
-	case mountDirFS:
-		return wazero.NewFSConfig().WithFSMount(os.DirFS(mnt), "/")
-	case mountMapFS:
-		return wazero.NewFSConfig().WithFSMount(w.mapfs, "/")
-	}
-	panic("unknown mount " + mount)
-}
-
 // ---------------------------------------------------------------------------
 // findings / results returned by a child
 
@@ -197,12 +182,13 @@ type callRec struct {
 }
 
 type finding struct {
-	Sig     string    `json:"sig"`
-	Detail  string    `json:"detail"`
-	Mount   string    `json:"mount"`
-	Engine  string    `json:"engine"`
-	Calls   []callRec `json:"calls"` // history of the unit up to and including the culprit (last)
-	Changes []change  `json:"changes,omitempty"`
+	Sig     string     `json:"sig"`
+	Detail  string     `json:"detail"`
+	Mount   string     `json:"mount"`
+	Engine  string     `json:"engine"`
+	Setup   *setupInfo `json:"config_setup"`
+	Calls   []callRec  `json:"calls"` // history of the unit up to and including the culprit (last)
+	Changes []change   `json:"changes,omitempty"`
 }
 
 type result struct {
@@ -216,6 +202,9 @@ type result struct {
 	Sample    []callRec        `json:"sample,omitempty"`
 	CallErrs  []string         `json:"call_errs,omitempty"`
 	Fatal     string           `json:"fatal,omitempty"`
+	// hostile sibling derivations applied before instantiation (distinct steps) and one full setup
+	SiblingOps  []string   `json:"sibling_ops,omitempty"`
+	SetupSample *setupInfo `json:"setup_sample,omitempty"`
 }
 
 func (r *result) count(k string, n int64) { r.Counters[k] += n }
@@ -238,9 +227,16 @@ type sess struct {
 	engine string
 	mod    api.Module
 	mem    api.Memory
-	rwFd   int32 // pre-open of the writable sibling mount, or -1
-	fns    map[string]api.Function
-	res    *result
+	rwFd   int32 // second pre-open (fd 4): the writable sibling mount of mountRORW or the second read-only mount of a "nested" setup; -1 when absent
+	setup  *setupInfo
+	// sigTag is "after-sibling-override" once the start-of-session probe showed
+	// that the instantiated config no longer gives the mount it was built with.
+	sigTag string
+	// alsoHost: on the MapFS mount, also snapshot the host tree (sibling configs
+	// mention host directories; a leak would show there, not in the map).
+	alsoHost bool
+	fns      map[string]api.Function
+	res      *result
 
 	calls   []callRec // history of the current unit
 	fds     []int32   // fds returned by path_open and not yet closed by us
@@ -254,21 +250,68 @@ type sess struct {
 	lastFdInfo *fdInfo // origin of the fd the current fd_* call works on (nil: pre-open or unknown)
 }
 
-func newSess(w *world, mount, engine string, res *result) (*sess, error) {
+func newSess(w *world, mount, engine string, setupSeed uint64, res *result) (*sess, error) {
 	rt, cm := w.guest(engine)
-	mod, err := rt.InstantiateModule(w.ctx, cm, wazero.NewModuleConfig().WithName("").WithFSConfig(w.fsConfig(mount)))
+	mc, si := w.buildConfig(mount, setupSeed)
+	mod, err := rt.InstantiateModule(w.ctx, cm, mc)
 	if err != nil {
-		return nil, err
+		return nil, fmt.Errorf("%v (setup %v)", err, si.Steps)
 	}
 	s := &sess{w: w, mount: mount, engine: engine, mod: mod, mem: mod.Memory(), fns: map[string]api.Function{}, res: res,
-		fdinfo: map[int32]*fdInfo{}, fnErrno: map[string]struct{}{}}
-	s.rwFd = -1
-	if mount == mountRORW {
-		s.rwFd = 4
-	}
+		fdinfo: map[int32]*fdInfo{}, fnErrno: map[string]struct{}{}, setup: si}
+	s.rwFd = si.ExtraFd
+	s.alsoHost = mount == mountMapFS && si.Hostile
 	s.rebase()
 	res.count("instantiations", 1)
+	res.count("setup:"+si.Shape, 1)
+	if si.Hostile {
+		res.count("sessions_with_hostile_siblings", 1)
+		for _, st := range si.Steps {
+			if strings.HasPrefix(st, "_ = ") || strings.HasPrefix(st, "rw") {
+				res.SiblingOps = append(res.SiblingOps, st)
+			}
+		}
+		if res.SetupSample == nil {
+			res.SetupSample = si
+		}
+		s.probe()
+	} else {
+		res.count("sessions_without_siblings", 1)
+	}
 	return s, nil
+}
+
+// probe runs at the start of every session whose config has hostile siblings:
+// is fd 3 (and the second read-only pre-open) still the mount it was built as?
+// Creating a directory must change nothing and the known file must be there.
+// If not, everything this session finds is tagged "after-sibling-override".
+func (s *sess) probe() {
+	s.beginUnit()
+	s.sigTag = "after-sibling-override"
+	before := len(s.res.Findings)
+	var total int64
+	for _, n := range s.res.SigCounts {
+		total += n
+	}
+	s.path1("path_create_directory", 3, "c17-sibling-probe")
+	if s.rwFd >= 0 && !s.setup.ExtraRW {
+		s.path1("path_create_directory", s.rwFd, "c17-sibling-probe")
+	}
+	if errno, sz, _ := s.pathFilestatGet(3, lookupFollow, knownFile); errno != 0 || sz != uint64(len(knownContent)) {
+		s.report(s.mount+":after-sibling-override:mount-replaced",
+			fmt.Sprintf("the config instantiated on %s (%s) does not show the tree it was built with: path_filestat_get(%q) = %s size=%d; derivations: %v",
+				s.mount, s.engine, knownFile, s.calls[len(s.calls)-1].Errno, sz, s.setup.Steps), nil)
+	}
+	var after int64
+	for _, n := range s.res.SigCounts {
+		after += n
+	}
+	if after == total && len(s.res.Findings) == before {
+		s.sigTag = "" // the mount is what it should be
+	} else {
+		s.res.count("sessions_compromised_by_siblings", 1)
+	}
+	s.endUnit()
 }
 
 func (s *sess) close() {
@@ -282,7 +325,8 @@ func (s *sess) close() {
 func (s *sess) rebase() {
 	if s.mount == mountMapFS {
 		s.mbase = snapMap(s.w.mapfs)
-	} else {
+	}
+	if s.mount != mountMapFS || s.alsoHost {
 		s.base = snapHost(s.w.root)
 	}
 }
@@ -296,8 +340,11 @@ func (s *sess) restore() {
 		for k, v := range newMapFS() {
 			s.w.mapfs[k] = v
 		}
-	} else if err := restoreTree(s.w.root); err != nil {
-		panic("c17: cannot restore host tree: " + err.Error())
+	}
+	if s.mount != mountMapFS || s.alsoHost {
+		if err := restoreTree(s.w.root); err != nil {
+			panic("c17: cannot restore host tree: " + err.Error())
+		}
 	}
 	s.res.count("tree_restores", 1)
 	s.rebase()
@@ -396,18 +443,20 @@ func (s *sess) check(rec *callRec) {
 	var cs []change
 	if s.mount == mountMapFS {
 		now := snapMap(s.w.mapfs)
-		cs = diffMap(s.mbase, now)
-		if len(cs) == 0 {
-			return
+		if cs = diffMap(s.mbase, now); len(cs) > 0 {
+			s.mbase = now
 		}
-		s.mbase = now
-	} else {
+	}
+	if s.mount != mountMapFS || s.alsoHost {
 		now := snapHost(s.w.root)
-		cs = diffHost(s.base, now)
-		if len(cs) == 0 {
-			return
+		if hc := diffHost(s.base, now); len(hc) > 0 {
+			s.base = now
+			cs = append(cs, hc...)
+			sortChanges(cs)
 		}
-		s.base = now
+	}
+	if len(cs) == 0 {
+		return
 	}
 	// The call is judged against the state just before it; the new state
 	// becomes the baseline for the rest of the unit and the tree is repaired
@@ -447,7 +496,7 @@ func (s *sess) report(sig, detail string, cs []change) {
 	if len(cs) > 12 {
 		cs = cs[:12]
 	}
-	s.res.Findings = append(s.res.Findings, finding{Sig: sig, Detail: detail, Mount: s.mount, Engine: s.engine, Calls: calls, Changes: cs})
+	s.res.Findings = append(s.res.Findings, finding{Sig: sig, Detail: detail, Mount: s.mount, Engine: s.engine, Setup: s.setup, Calls: calls, Changes: cs})
 }
 
 // sigFor names the root cause narrowly: mount kind, function, the argument
@@ -456,6 +505,11 @@ func (s *sess) sigFor(rec *callRec, eff string) (sig string) {
 	mount := s.mount
 	if s.mount == mountRORW {
 		mount = mountRO
+	}
+	if s.sigTag != "" {
+		mount += ":" + s.sigTag
+	}
+	if s.mount == mountRORW {
 		if s.rwFd >= 0 && strings.Contains(rec.Args+" ", fmt.Sprintf("fd=%d ", s.rwFd)) {
 			defer func() { sig = sig[:len(sig)-len(eff)] + "via-rw-sibling-mount:" + eff }()
 		}
